@@ -431,6 +431,24 @@ ALT_SRC = 99  # source id of the unrelated second file content
 ALT_CK = 100  # offset of its checksum tokens in the first argument of Hs
 
 
+class BigZeros:
+    """concrete content of a huge (sparse) file: zeros, materialised slice by slice"""
+
+    def __init__(self, n):
+        self.n = n
+
+    def __len__(self):
+        return self.n
+
+    def __getitem__(self, i):
+        if isinstance(i, slice):
+            a, b, _ = i.indices(self.n)
+            if b - a > 1 << 20:
+                raise symex.HarnessError("slice of a sparse file too large to materialise")
+            return bytes(max(0, b - a))
+        return 0
+
+
 class MemFile:
     def __init__(self, base_size=None):
         self.log = []  # (offset, payload) in arrival order
@@ -469,6 +487,8 @@ class MemFs(VirtualFilestore):
         f.alt = alt
         if self.w.sym:
             f.log.append((0, SymBytes(ALT_SRC if alt else 0, 0, size)))
+        elif size > 4096 and not alt:
+            self.conc[_pkey(p)] = BigZeros(size)  # sparse: only used where content does not matter
         else:
             self.conc[_pkey(p)] = bytearray(self.w.alt_bytes(size) if alt else self.w.src_bytes(0, size))
         f.size = size
